@@ -72,6 +72,11 @@ CLAIMED = {
         "Unbounded theorems for any element type with a zero test (rows*cols < 2^31): get returns the dense entry; set keeps canonical format and performs exactly the dense update; after EVERY history of in-range set/get operations every step succeeds and equals the dense mirror; from_coo sums duplicates and is canonical; binop (add, sub, elementwise product), transpose, conjugate, scale rows/columns, diagonal, jacobian, matrix product (canonical result equal to the dense product) agree with dense semantics; is_canonical decides canonical format exactly. Tied by comparing p_, j_, x_ exactly after every command of generated programs (exhaustive small universes included) and by an independent dense mirror in the driver.",
         "Trusted: Coq kernel; extraction; hand transcription validated by exact correspondence; the NotImplementedError methods and the csr-to-csr eq path are covered by correspondence only.",
         "7 (C25)"),
+    "C27": (
+        "Rocq proof over an executable model of sets.cpp / set_funcs.cpp on intervals, finite sets, the number sets, unions, intersections and complements (containers ordered by the modelled RCPBasicKeyLess; one fuelled function for the mutual recursion; results carry defect flags) + tree-for-tree correspondence",
+        "Unbounded theorems (any nesting) with membership semantics over germ points (every real, distinguishing Reals from Rationals): set_union, set_intersection, set_complement (member and free functions, helper) have pointwise membership semantics; contains agrees with membership; closure/interior/boundary and sup/inf partial (not for Union/Intersection/Complement operands; unboundedness of infinite sup/inf not proved). Theorems apply when the model raised no defect flag; flagged classes have refutation witnesses and known-finding keys. Tied by comparing result trees exactly on complete small universes and random trees, a spec oracle at all germ points on both results, and the library's own contains on endpoints/midpoints/neighbours.",
+        "Trusted: Coq kernel; extraction; hand transcription validated by correspondence; known findings (listed): unbounded recursion for some absorbed operands (SIGSEGV), boundary of a union with adjacent members.",
+        "7 (C27)"),
     "C28": (
         "Rocq proof over an executable model of logic.cpp (and_or, logical_not/xor/nand/nor/xnor, piecewise, contains, relational constructors, subs on boolean trees; std::set order = modelled RCPBasicKeyLess) + exact correspondence of result trees",
         "Unbounded theorems: for every formula of the fragment (relationals over symbols and exact rationals, membership in intervals/finite sets, closed under Not/And/Or/Xor), every argument list (hence every iteration order) and every assignment of rationals to the symbols, logical_and/or/nand/nor/xor/xnor/not, piecewise construction, Contains simplification and substitution preserve the truth value. Tied by reproducing the library's result tree exactly (container order included) on generated formulas; a truth-table oracle complete up to order type runs on the library's own results.",
